@@ -60,7 +60,7 @@ def run(cx):
     c0 = cx.fn('C09.G1', N + 'verify_nsec3::{closure@is_some_and#0}')
     if c0:
         t = cx.true_returns(c0)
-        ok = len(t) == 1 and bool(re.search(r'^!eq:Name\(\^nsec3::split_first_label\(.*\)@Some\.0\.1,arg2\)$', t[0].term))
+        ok = len(t) == 1 and bool(re.search(r'^!eq:Name\((nsec3::split_first_label\(.*\)@Some\.0\.1,arg2|arg2,nsec3::split_first_label\(.*\)@Some\.0\.1)\)$', t[0].term))
         cx.check('C09.G1', ok, c0.path, 'ret', 'zone-mismatch-is-name-inequality',
                  'closure must report a mismatch exactly when base != soa: ' + '; '.join(s.term[:160] for s in t),
                  t[0].loc if t else '')
@@ -68,9 +68,9 @@ def run(cx):
     if c1:
         fr = cx.false_returns(c1)
         cx.guard('C09.G1', fr, {
-            'algorithm-equal': r'^eq:Nsec3HashAlgorithm\(\^NSEC3::hash_algorithm\(.*\),NSEC3::hash_algorithm\(arg2\.nsec3_data\)\)$',
-            'salt-equal': r'^eq:\[u8\]\(\^NSEC3::salt\(.*\),NSEC3::salt\(arg2\.nsec3_data\)\)$',
-            'iterations-equal': r'^eq\(\^NSEC3::iterations\(.*\),NSEC3::iterations\(arg2\.nsec3_data\)\)$'}, expect=1, fn=c1)
+            'algorithm-equal': r'^eq:Nsec3HashAlgorithm\(NSEC3::hash_algorithm\(.*\^arg\d.*\),NSEC3::hash_algorithm\(arg2\.nsec3_data\)\)$',
+            'salt-equal': r'^eq:\[u8\]\(NSEC3::salt\(.*\^arg\d.*\),NSEC3::salt\(arg2\.nsec3_data\)\)$',
+            'iterations-equal': r'^eq\(NSEC3::iterations\(.*\^arg\d.*\),NSEC3::iterations\(arg2\.nsec3_data\)\)$'}, expect=1, fn=c1)
 
     # ------------------------------------------------------------------ G2 Secure sites
     total_secure = 0
@@ -86,7 +86,7 @@ def run(cx):
     c = cx.fn('C09.G2', N + 'validate_nxdomain_response::{closure@any#0}')
     if c:
         t = cx.true_returns(c)
-        cx.check('C09.G2', len(t) == 1 and bool(re.search(r'^eq:Label\(\^Context::hash_and_label\(arg1,arg1\.query\.name\)\.1,arg2\.base32_hashed_name\)$', t[0].term)),
+        cx.check('C09.G2', len(t) == 1 and bool(re.search(r'^eq:Label\(arg2\.base32_hashed_name,Context::hash_and_label\(\^arg1,\^arg1\.query\.name\)\.1\)$', t[0].term)),
                  c.path, 'ret', 'match-is-hash-equality', '; '.join(s.term[:160] for s in t))
     f = cx.fn('C09.G2', N + 'validate_nodata_response')
     if f:
